@@ -70,6 +70,7 @@ fn sa_stub(_i: &Id, _k: &[u8], _t: u64, _s: &[u8]) -> Result<SignedAnnounce, cra
 }
 
 #[kani::proof]
+#[kani::stub(crate::common::node::Node::is_secure, crate::verif_harness::stub_is_secure)]
 #[kani::stub(crate::common::immutable::hash_immutable, h_stub)]
 #[kani::stub(crate::common::mutable::MutableItem::from_dht_message, mut_stub)]
 #[kani::stub(crate::common::signed_announce::SignedAnnounce::from_dht_response, sa_stub)]
